@@ -1,5 +1,8 @@
 import RulioProofs.StateFrame
 
+set_option linter.unusedSimpArgs false
+set_option linter.unusedVariables false
+
 /-! # Shape of `add` in both states -/
 
 theorem SameButRi.refl (s : St) : SameButRi s s := ⟨rfl, rfl, rfl, rfl, rfl⟩
